@@ -295,13 +295,25 @@ def bounded(ctx):
     kinds_all = list(MOLS)
     fails, evals, distinct = [], 0, set()
     with contextlib.redirect_stdout(io.StringIO()):
+        # fixed cases (every seed): two equal molecules with repeated labels, iodine molecules (largest bonding threshold), reversed atom orders across a face
+        for number, choice, kinds, kw in ((14, "b1", ["water", "water"], {"dup_labels": True}), (19, "", ["i2", "ch3i"], {}), (33, "", ["i2"], {"scatter": True}),
+                                         (2, "", ["water_hho", "h2co_hhoc"], {"scatter": True, "dup_labels": True}), (61, "", ["methanol", "methanol"], {"dup_labels": True})):
+            try:
+                c, info = molecular_crystal(rng, number, choice, kinds, **kw)
+                f = molecule_contract(c, info) if c is not None else None
+            except Exception as e:  # noqa
+                f = {"input": {"setting": f"{number}:{choice}", "molecules": kinds}, "observed": {"exception": repr(e)[:300]}, "clause": "molecule queries run", "key": "exception"}
+            evals += 1
+            distinct.add((number, choice, tuple(kinds), "fixed"))
+            if f and len(fails) < 3:
+                fails.append(f)
         for number, choice in todo:
             nm = int(rng.integers(1, 3))
             kinds = [kinds_all[int(i)] for i in rng.choice(len(kinds_all), size=nm, replace=bool(rng.integers(0, 2)))]
             if len(sgm.SpaceGroup(number, choice=choice).symmetry_operations) >= 96 and ctx.tier == "quick":
                 kinds = kinds[:1]
             try:
-                c, info = molecular_crystal(rng, number, choice, kinds, scatter=bool(rng.integers(0, 2)))
+                c, info = molecular_crystal(rng, number, choice, kinds, scatter=bool(rng.integers(0, 2)), dup_labels=bool(rng.integers(0, 2)))
                 if c is None:
                     continue
                 f = molecule_contract(c, info)
@@ -311,6 +323,23 @@ def bounded(ctx):
             distinct.add((number, choice, tuple(kinds)))
             if f and len(fails) < 3:
                 fails.append(f)
+    # non-default bond tolerance must reach the connectivity search: N2O4 (N-N 1.78 A) is one molecule only with bond_tolerance >= 0.42
+    from chmpy.crystal import Crystal, UnitCell, SpaceGroup, AsymmetricUnit
+    from chmpy import Element
+    n2o4 = np.array([[0.0, 0.0, 0.0], [1.78, 0.0, 0.0], [-0.55, 1.05, 0.0], [-0.55, -1.05, 0.0], [2.33, 1.05, 0.0], [2.33, -1.05, 0.0]])
+    cell = UnitCell.from_lengths_and_angles([11.0, 12.0, 13.0], [np.pi / 2] * 3)
+    cr = Crystal(cell, SpaceGroup(14), AsymmetricUnit([Element[x] for x in "NNOOOO"], cell.to_fractional(n2o4 + [3.0, 3.5, 4.0])))
+    evals += 1
+    try:
+        nm = len(cr.unit_cell_molecules(bond_tolerance=0.6))
+        nu = len(cr.symmetry_unique_molecules(bond_tolerance=0.6))
+        okt = nm == 4 and nu == 1
+        obs = {"unit_cell_molecules": nm, "expected": 4, "unique": nu}
+    except Exception as e:  # noqa
+        okt, obs = False, {"exception": repr(e)[:200]}
+    if not okt and len(fails) < 3:
+        fails.append({"input": {"structure": "N2O4 (N-N 1.78 A) in P2_1/c", "bond_tolerance": 0.6}, "observed": obs,
+                      "clause": "the caller's bond tolerance decides what is bonded: number of molecules = Z' x |G|", "key": "bond_tolerance"})
     ctx.add_bounded("crystal.Crystal.unit_cell_molecules/bounded/generated_molecular_crystals",
                     f"{len(todo)} settings ({'seeded sample' if ctx.tier == 'quick' else 'all 530'}) x 1-2 rigid molecules (equal or different, 3-6 atoms) randomly oriented, "
                     "placed anywhere within [-0.6, 1.6] cells, every intermolecular contact > 2.9 A", evals, len(distinct), fails,
